@@ -22,39 +22,108 @@ def PoolsSane (s : State) : Prop :=
 theorem C16_builtins_created (s : State) (k : PoolKey) (hk : k ∈ builtinKeys s) :
     ∃ p, (createBuiltins s).pools.get k = some p ∧
       (s.pools.get k = none → p = builtinDefault) ∧ (∀ q, s.pools.get k = some q → p = q) := by
-  sorry
+  have h12 := poolMelSym_ne_poolMelErg
+  have h13 := poolMelSym_ne_poolErgSym
+  have h23 := poolMelErg_ne_poolErgSym
+  have hcb : (createBuiltins s).pools =
+      if s.tip902 then ((s.pools.setIfNone poolMelSym builtinDefault).setIfNone poolMelErg builtinDefault).setIfNone
+          poolErgSym builtinDefault
+      else (s.pools.setIfNone poolMelSym builtinDefault).setIfNone poolMelErg builtinDefault := by
+    unfold createBuiltins AList.setIfNone
+    cases s.tip902 <;> simp
+  have hgoal : ∀ (v : Option PoolState), ∃ p, some (v.getD builtinDefault) = some p ∧
+      (v = none → p = builtinDefault) ∧ (∀ q, v = some q → p = q) := by
+    intro v; cases v <;> simp
+  unfold builtinKeys at hk
+  rw [hcb]
+  rcases List.mem_append.mp hk with hk | hk
+  · simp only [List.mem_cons, List.not_mem_nil, or_false] at hk
+    rcases hk with rfl | rfl
+    · have := hgoal (s.pools.get poolMelSym)
+      split
+      · rwa [AList.get_setIfNone_ne _ _ h13, AList.get_setIfNone_ne _ _ h12, AList.get_setIfNone_self]
+      · rwa [AList.get_setIfNone_ne _ _ h12, AList.get_setIfNone_self]
+    · have := hgoal (s.pools.get poolMelErg)
+      split
+      · rwa [AList.get_setIfNone_ne _ _ h23, AList.get_setIfNone_self,
+          AList.get_setIfNone_ne _ _ h12.symm]
+      · rwa [AList.get_setIfNone_self, AList.get_setIfNone_ne _ _ h12.symm]
+  · split at hk
+    · next ht =>
+      simp only [List.mem_cons, List.not_mem_nil, or_false] at hk
+      subst hk
+      have := hgoal (s.pools.get poolErgSym)
+      rwa [if_pos ht, AList.get_setIfNone_self, AList.get_setIfNone_ne _ _ h23.symm,
+        AList.get_setIfNone_ne _ _ h13.symm]
+    · cases hk
 
 theorem C16_default_has_reserves : HasReserves builtinDefault ∧ builtinDefault.liqs = 1000000000 := by
-  sorry
+  simp [HasReserves, builtinDefault, MICRO_CONVERTER, BUILTIN_LIQ_MULT]
 
 /-- after a successful seal every builtin pool exists -/
 theorem C16_builtins_exist (env : Env) (s : State) (a : Option ProposerAction) (ss : Sealed)
     (h : sealState env s a = .ok ss) (k : PoolKey) (hk : k ∈ builtinKeys s) :
     ∃ p, ss.st.pools.get k = some p := by
-  sorry
+  obtain ⟨p, hp, _⟩ := C16_builtins_created s k hk
+  have := sealState_grow env s a ss h k (by rw [hp]; rfl)
+  exact Option.isSome_iff_exists.mp this
 
 /-- a withdrawal that does not redeem all the liquidity leaves reserves on both sides -/
 theorem C16_partial_withdraw_keeps_reserves (p p' : PoolState) (q pl pr : Nat)
     (h : p.withdraw q = .ok (p', pl, pr)) (hr : HasReserves p) (hq : q < p.liqs) :
     HasReserves p' ∧ 0 < p'.liqs := by
-  sorry
+  obtain ⟨hl, hrr⟩ := hr
+  unfold PoolState.withdraw at h
+  simp only at h
+  split at h
+  · cases h
+  · split at h
+    · cases h
+    · split at h
+      · omega
+      · cases h
+        have hL : p.lefts * q / p.liqs < p.lefts :=
+          Nat.div_lt_of_lt_mul (by rw [Nat.mul_comm p.liqs]; exact Nat.mul_lt_mul_of_pos_left hq hl)
+        have hR : p.rights * q / p.liqs < p.rights :=
+          Nat.div_lt_of_lt_mul (by rw [Nat.mul_comm p.liqs]; exact Nat.mul_lt_mul_of_pos_left hq hrr)
+        refine ⟨⟨?_, ?_⟩, ?_⟩ <;> simp only <;> omega
 
 /-- a deposit into a pool with reserves (or an empty pool, with both amounts positive) leaves reserves -/
 theorem C16_deposit_keeps_reserves (p p' : PoolState) (l r minted : Nat)
     (h : p.deposit l r = .ok (p', minted)) (hl : 0 < l) (hr : 0 < r)
     (hp : p.liqs ≠ 0 → HasReserves p) : HasReserves p' := by
-  sorry
+  unfold PoolState.deposit at h
+  simp only at h
+  split at h
+  · cases h; exact ⟨hl, hr⟩
+  · next hne =>
+    obtain ⟨hpl, hpr⟩ := hp hne
+    split at h
+    · cases h
+    · cases h
+      refine ⟨?_, ?_⟩ <;> simp only <;> omega
 
 /-- the deposit selector only lets through deposits with both amounts positive -/
 theorem C16_deposit_amounts_positive (s : State) (tx : Tx) (h : isDepositRequest s tx = true) :
     ∃ o0 o1 rest, tx.outputs = o0 :: o1 :: rest ∧ 0 < o0.value ∧ 0 < o1.value := by
-  sorry
+  unfold isDepositRequest at h
+  simp only [Bool.and_eq_true] at h
+  obtain ⟨_, h⟩ := h
+  split at h
+  · next o0 o1 rest heq =>
+    simp only [Bool.and_eq_true, decide_eq_true_eq] at h
+    exact ⟨o0, o1, rest, heq, h.1.1.1.1, h.1.1.1.2⟩
+  · cases h
 
 /-- **backing at issue**: the liquidity tokens handed to the depositors of one pool in one block add up to
     no more than the liquidity the pool recorded for them -/
 theorem C16_issue_backed (totalLiqs : Nat) (ws : List Nat) (hpos : 0 < ws.sum) (hfit : ws.sum ≤ U128_MAX) :
     (ws.map fun w => min (totalLiqs * w / ws.sum) U128_MAX).sum ≤ totalLiqs := by
-  sorry
+  have _ := hfit   -- not needed: the bound holds for any list with a positive sum
+  have h := shares_sum_mul_le totalLiqs ws.sum U128_MAX ws
+  rw [Nat.mul_comm totalLiqs] at h
+  rw [Nat.mul_comm _ ws.sum] at h
+  exact Nat.le_of_mul_le_mul_left h hpos
 
 /-- what was wrong before the `fix:` commit (finding F10): with the old denominator ⌊√Σa⌋·⌊√Σb⌋ two (1,1)
     deposits into a fresh pool are issued 2 + 2 tokens against a recorded liquidity of 2 -/
@@ -62,19 +131,68 @@ theorem C16_old_overissue :
     let total := 2          -- pool.deposit(2, 2) on an empty pool
     let oldDenominator := Nat.sqrt (1 + 1) * Nat.sqrt (1 + 1)
     (total * (Nat.sqrt 1 * Nat.sqrt 1) / oldDenominator) + (total * (Nat.sqrt 1 * Nat.sqrt 1) / oldDenominator) = 4 := by
-  sorry
+  intro total oldDenominator
+  have h2 : Nat.sqrt (1 + 1) = 1 := sqrt_two
+  simp only [total, oldDenominator, sqrt_one, h2]
 
 /-- redeeming burns exactly the liquidity redeemed, and a request for more than was ever issued is ignored -/
 theorem C16_withdraw_guard (k : PoolKey) (s : State) (reqs : List Tx) (p : PoolState)
     (hp : s.pools.get k = some p)
     (hmore : p.liqs < satSum (reqs.map fun tx => (tx.outputs.headD default).value)) :
     processWithdrawalsForPool k s reqs = .ok s := by
-  sorry
+  unfold processWithdrawalsForPool
+  simp only [hp]
+  rw [if_pos hmore]
 
 /-- pegging and the TIP-909 subsidy only ever add to a builtin pool's side through `swap_many`, which keeps
     reserves (C15_swap_keeps_reserves); stated for the subsidy step -/
 theorem C16_subsidy_keeps_reserves (s s' : State) (h : applyTip909 s = .ok s') :
     ∀ k ∈ [poolMelSym, poolErgSym], ∀ p', s'.pools.get k = some p' → HasReserves p' := by
-  sorry
+  have h13 := poolMelSym_ne_poolErgSym
+  unfold applyTip909 at h
+  simp only at h
+  split at h
+  · cases h
+  · split at h
+    · cases h
+    · obtain ⟨⟨sm', mel, x⟩, hsm, h⟩ := Outcome.bind_eq_ok h
+      simp only at h
+      split at h
+      · cases h
+      · split at h
+        · cases h
+        · obtain ⟨⟨es', y, z⟩, hes, h⟩ := Outcome.bind_eq_ok h
+          cases h
+          have hrew : 2 ^ SUBSIDY_LOG2 / 2 ^ ((s.height - TIP_909_HEIGHT) / SUBSIDY_HALVING) ≤ U128_MAX := by
+            refine Nat.le_trans (Nat.div_le_self _ _) ?_
+            decide
+          have r1 := swapMany_right_reserves _ _ _ _ _ (by
+            split
+            · exact Nat.le_trans (Nat.sub_le _ _) hrew
+            · exact Nat.le_trans (Nat.div_le_self _ _) hrew) hsm
+          have r2 := swapMany_right_reserves _ _ _ _ _ (by
+            split
+            · exact Nat.le_trans (Nat.div_le_self _ _) hrew
+            · exact Nat.le_trans (Nat.sub_le _ _) hrew) hes
+          intro k hk p' hp'
+          simp only [List.mem_cons, List.not_mem_nil, or_false] at hk
+          rcases hk with rfl | rfl
+          · simp only at hp'
+            rw [AList.get_set_ne _ _ h13, AList.get_set_self] at hp'
+            cases hp'; exact r1
+          · simp only at hp'
+            rw [AList.get_set_self] at hp'
+            cases hp'; exact r2
 
 end Mel
+
+#print axioms Mel.C16_builtins_created
+#print axioms Mel.C16_default_has_reserves
+#print axioms Mel.C16_builtins_exist
+#print axioms Mel.C16_partial_withdraw_keeps_reserves
+#print axioms Mel.C16_deposit_keeps_reserves
+#print axioms Mel.C16_deposit_amounts_positive
+#print axioms Mel.C16_issue_backed
+#print axioms Mel.C16_old_overissue
+#print axioms Mel.C16_withdraw_guard
+#print axioms Mel.C16_subsidy_keeps_reserves
